@@ -27,7 +27,9 @@ def pick(rng, pool):
         return rng.choice(pool)
     if t < 0.7:
         return rng.choice(pool) * rng.choice([3, 1.3, 0.1, 7, 0.7])
-    return round(rng.uniform(0.001, 500.0), rng.choice([1, 2, 3, 5]))
+    k = rng.choice([1, 2, 3, 5])
+    v = round(rng.uniform(0.001, 500.0), k)
+    return v if v > 0 else 10.0 ** -k
 
 
 def gen_cfg(rng):
@@ -86,7 +88,7 @@ def warmup_samples(seconds, scantime):
 def gen_srr(rng, max_vox=24000, force_valid=True):
     """an abstract SRR case: config + crossed stack shapes (+ which way it is made invalid)"""
     for _ in range(100):
-        M = rng.choice([1, 1, 2, 2, 3, 4])
+        M = rng.choice([1, 1, 1, 2, 2, 2, 3, 3, 4, 4, 5, 7])
         n = rng.choice([2, 2, 3, 3, 4, 5])
         l0, l1 = rng.randint(1, 6), rng.randint(1, 6)
         if rng.random() < 0.15:
@@ -205,7 +207,7 @@ def summarize(res, cols, off, full):
 class C10(Prop):
     id = "C10"
     anchored = ["src/pewlib/config.py", "src/pewlib/laser.py", "src/pewlib/srr/config.py", "src/pewlib/srr/srr.py"]
-    cases = {"quick": 260, "thorough": 5000}
+    cases = {"quick": 700, "thorough": 30000}
     rule = ("raster/spot configs with parameters from pools of binary-inexact values (0.1*3, 33.3*1.3, 0.007, 1/3 ...), "
             "their products and random decimals; shapes 1..8 (every pixel-aligned rectangle read), medium and up to 4000 per side "
             "(random aligned rectangles incl. own extent, empty, first/last row/column); bounds computed as k*px, as the correctly "
@@ -255,7 +257,7 @@ class C10(Prop):
     def generate(self, rng, tier):
         t = rng.random()
         if t < 0.22:
-            return {"kind": "srr", **gen_srr(rng, max_vox=6000)}
+            return {"kind": "srr", **gen_srr(rng, max_vox=6000), "roundtrip": rng.random() < 0.3}
         cfg = gen_cfg(rng)
         rows, cols = self.gen_shape(rng, tier)
         if t < 0.42:
@@ -286,6 +288,12 @@ class C10(Prop):
             yield {"kind": "extent", "cfg": cfg, "rows": 1, "cols": 1}
             yield {"kind": "get", "cfg": cfg, "rows": 4000, "cols": 3, "nel": 1, "element": None, "rect": [0, 4000, 0, 3], "modes": ["own"] * 4}
             yield {"kind": "get", "cfg": cfg, "rows": 2, "cols": 4000, "nel": 2, "element": 1, "rect": [1, 2, 3999, 4000], "modes": ["mul"] * 4}
+        if tier == "thorough":  # every aligned rectangle of every image up to 6 x 6, four ways of computing the bounds
+            for cfg in cfgs + [{"kind": "raster", "spotsize": 33.3 * 1.3, "speed": 0.007, "scantime": 1 / 3}]:
+                for rows in range(1, 7):
+                    for cols in range(1, 7):
+                        for mode in ("mul", "exact", "up", "down"):
+                            yield {"kind": "get_all", "cfg": cfg, "rows": rows, "cols": cols, "nel": 1, "element": 0, "mode": mode}
         # the witness of the repaired SRR shape defect: layers 4 x 20 and 6 x 20
         yield {"kind": "srr", "spotsize": 35.0, "speed": 140.0, "scantime": 0.25, "warmup": 0.0, "pairs": [[0, 2], [1, 2]],
                "mag": 1, "n": 2, "shapes": [[4, 20], [6, 20]], "short": None, "wmode": "exact"}
@@ -408,7 +416,12 @@ class C10(Prop):
             a = np.empty((l, s), dtype=[("A", np.float64)])
             a["A"] = np.arange(1, l * s + 1, dtype=np.float64).reshape(l, s)
             layers.append(a)
-        laser = SRRLaser(layers, config=make_srr_cfg(case))
+        from pewlib.srr.config import SRRConfig
+
+        cfg0 = make_srr_cfg(case)
+        if case.get("roundtrip"):  # the same relation must hold for the configuration after its array round trip
+            cfg0 = SRRConfig.from_array(cfg0.to_array())
+        laser = SRRLaser(layers, config=cfg0)
         ext = [float(v) for v in laser.extent]
         px, py = float(laser.config.get_pixel_width()), float(laser.config.get_pixel_height())
         mag = float_mag(case)
@@ -418,6 +431,8 @@ class C10(Prop):
         feats = {"srr", f"mag{case['mag']}", f"layers{case['n']}", "warmup>0" if rep["warmup"] > 0 else "warmup=0",
                  "non-square" if shapes[0][0] != shapes[1][0] else "square", "offset>0" if max(rep["offs"]) > 0 else "offset=0",
                  f"spp{'>1' if rep['spp'] > 1 else '=1'}"}
+        if case.get("roundtrip"):
+            feats.add("srr-config-after-roundtrip")
         try:
             recon = laser.get()
             rshape = [int(recon.shape[0]), int(recon.shape[1])]
